@@ -8,7 +8,7 @@ from gen_state import *  # noqa
 PROP_FILES = ["State/Properties_C13.v"]
 MANIFEST = dict(
     technique="Coq proof over a file-system model (names -> inode -> bytes, per-inode flock) of atomic_write_with_lock_timeout as a step list; a crash is any prefix of the protocol; tied to /repo by killing the real CLI at every hook point (exhaustive) and comparing file bytes, left-over temp files, hook traces and the next commands with the model",
-    text="Theorems C13_crash_safe, C13_change_point, C13_never_partial, C13_next_load_ok, C13_no_discard, C13_intact_load, C13_temp_is_private, C13_temp_content, C13_truncation_detected, and for crash HISTORIES of a recycled pid (the stale temp file is part of the state; File::create truncates it) C13_save_after_any_crash_history, C13_crash_safe_after_history, C13_history_target_complete hold for every prior state (absent or any bytes), every new content, every physical size and every crash point k (unbounded; D14 repaired, no known class). Tie: the SGV_TRACE of a real save equals the model's point list (C13_points_are_protocol); every point x prior in {absent, valid, valid ~1 MB} x kind in {baseline via check --update-baseline, history via snapshot, cache via check / stats} is killed for real (plus a command that saves two files, killed in either save; plus kills followed by a shorter save of a process with the SAME pid, each invocation being pid 1 of its own PID namespace, with the stale temp file in place) and the target, the temp file and the next commands (check --baseline, stats history, snapshot, check, stats summary) agree with the model and with the property oracle.",
+    text="Theorems C13_crash_safe, C13_change_point, C13_never_partial, C13_next_load_ok, C13_no_discard, C13_intact_load, C13_temp_is_private, C13_temp_content, C13_truncation_detected, and for crash HISTORIES of a recycled pid (the stale temp file is part of the state; File::create truncates it) C13_save_after_any_crash_history, C13_crash_safe_after_history, C13_history_target_complete, and for a target that is a mount point C13_refused_rename hold for every prior state (absent or any bytes), every new content, every physical size and every crash point k (unbounded; D14 repaired, no known class). Tie: the SGV_TRACE of a real save equals the model's point list (C13_points_are_protocol); every point x prior in {absent, valid, valid ~1 MB} x kind in {baseline via check --update-baseline, history via snapshot, cache via check / stats} is killed for real (plus a command that saves two files, killed in either save; plus kills followed by a shorter save of a process with the SAME pid, each invocation being pid 1 of its own PID namespace, with the stale temp file in place; plus every kind with the state file as regular file / symbolic link / hard link / bind-mount point, un-killed with the protocol oracle `a save that changes the file's bytes has passed aw:start..aw:after_rename` and killed by strace syscall injection at write / copy_file_range on the target's path and at the rename) and the target, the temp file and the next commands (check --baseline, stats history, snapshot, check, stats summary) agree with the model and with the property oracle.",
     note="Trusted: Coq kernel, extraction, kernel rename/flock semantics (atomic rebinding; per-inode reader-writer lock dropped at process death), std::process::abort as the crash (page cache survives: the Fsync step is checked as an ordering fact only, no power loss), JSON (de)serialisation abstracted to: complete documents parse, the empty file and proper prefixes do not (C13_truncation_detected).",
     ref="5 (C13)")
 
@@ -239,8 +239,14 @@ def run(ctx):
     fails += rf
     hist["recycled pid after a kill"] = rn
     ctx.cov["recycled_pid"] = rnote
-    ctx.cov["evaluations"] = len(cases) + cn + rn
-    ctx.cov["distinct_nontrivial"] = len(really_killed) + ckilled + rkilled
+    # ---- targets that are links or mount points; kills injected at system calls instead of hook points
+    lm, lf, lkilled, ln, lnote = links_and_syscalls(ctx, cli, drv, points)
+    mism += lm
+    fails += lf
+    hist["link / mount-point targets, syscall kills"] = ln
+    ctx.cov["links_and_syscalls"] = lnote
+    ctx.cov["evaluations"] = len(cases) + cn + rn + ln
+    ctx.cov["distinct_nontrivial"] = len(really_killed) + ckilled + rkilled + lkilled
     ctx.cov["exhaustive"] = True
     ctx.cov["traces_validated_against_impl"] = trace_ok + len(really_killed)
     ctx.cov["rule"] = ("exhaustive product: every hook point of the save protocol (%d) x prior state {absent, valid, valid about 1 MB} x kind "
@@ -389,6 +395,114 @@ def recycled_pid(ctx, cli, drv, points):
     return mism, fails, killed, n, {"cases": n, "killed_as_pid_1": killed, "how": "unshare --pid --fork per invocation"}
 
 
+FLAVOURS = ["regular", "symlink", "hardlink", "bindmount"]
+INJECT = ["write", "copy_file_range", "rename"]
+
+
+def links_and_syscalls(ctx, cli, drv, points):
+    """The state file as a regular file, a symbolic link, a hard link and a bind-mount point, for each
+    of the three kinds.
+    (a) protocol oracle: a save that changes the bytes read through the state file's path must have
+        passed the whole protocol (SGV_TRACE contains aw:start .. aw:after_rename in model order);
+        the model: links are renamed over like any name; rename(2) onto a mount point is refused
+        (EBUSY), the save stops after aw:after_lock with the file unchanged (C13_refused_rename).
+    (b) kills at system calls (strace -P <path> -e inject=<syscall>:signal=SIGKILL) on the target's
+        own path: write / copy_file_range must never touch it (only the temp file is written), a kill
+        at the rename leaves it unchanged. After every run the file is the prior or the complete new
+        document and the next command loads it."""
+    mism, fails, killed, n = [], [], 0, 0
+    have_strace = shutil.which("strace") is not None
+    try:
+        can_mount = subprocess.run(["unshare", "-m", "true"], capture_output=True, timeout=20).returncode == 0
+    except Exception:
+        can_mount = False
+    note = {"strace": have_strace, "bind_mount": can_mount, "cases": 0, "killed_by_injection": 0}
+    jobs = []
+    for kind in KINDS:
+        tsb, prior_doc, _ = make_template(cli, kind, "valid")
+        rel = KIND_FILE[kind]
+        with copy_template(tsb) as sb:
+            run_cli(sb, cli, save_cmd(kind, "valid", "check"))
+            new_doc = read_state(os.path.join(sb.proj, rel))[1]
+        for fl in FLAVOURS:
+            if fl == "bindmount" and not can_mount:
+                continue
+            jobs.append((kind, tsb, prior_doc, new_doc, fl, None))
+            if have_strace:
+                for sc in INJECT:
+                    jobs.append((kind, tsb, prior_doc, new_doc, fl, sc))
+
+    def one(job):
+        kind, tsb, prior_doc, new_doc, fl, sc = job
+        rel = KIND_FILE[kind]
+        with copy_template(tsb) as sb:
+            target = os.path.join(sb.proj, rel)
+            real = target
+            if fl in ("symlink", "hardlink"):
+                real = os.path.join(sb.base, "shared", os.path.basename(rel))
+                os.makedirs(os.path.dirname(real))
+                shutil.move(target, real)
+                (os.symlink if fl == "symlink" else os.link)(real, target)
+            tr = os.path.join(sb.base, "trace")
+            log = os.path.join(sb.base, "strace.log")
+            argv = [cli, "--color", "never"] + save_cmd(kind, "valid", "check")
+            if sc:
+                # -P matches descriptor-based calls (write, copy_file_range) by the file's real path; the one
+                # rename of the command (path arguments, relative) is injected without a path filter
+                flt = [] if sc == "rename" else ["-P", real, "-P", target]
+                argv = ["strace", "-f", "-o", log] + flt + ["-e", "trace=" + sc, "-e", "inject=%s:signal=SIGKILL" % sc] + argv
+            if fl == "bindmount":
+                argv = ["unshare", "-m", "sh", "-c", 'mount --bind "$0" "$0" && exec "$@"', target] + argv
+            rc, so, se = sb.run(argv[0], argv[1:], env=base_env(NOW0, {"SGV_TRACE": tr}), timeout=120)
+            was_killed = bool(sc) and os.path.exists(log) and "killed by SIGKILL" in open(log).read()
+            aw = [x for v in read_trace(tr).values() for x in v if x.startswith("aw:")]
+            st, doc, size = read_state(target)
+            temps = sorted(temp_files(os.path.dirname(target), os.path.basename(target)).values())
+            nxt, fst, fent = run_next(sb, cli, kind)
+            return {"rc": rc, "killed": was_killed, "aw": aw, "state": classify(kind, st, doc, prior_doc, new_doc), "temps": temps,
+                    "next_rcs": [x[1] for x in nxt], "final": fst, "err": se.strip()[-160:]}
+
+    try:
+        with cf.ThreadPoolExecutor(max_workers=8) as ex:
+            res = list(ex.map(one, jobs))
+    finally:
+        for tsb in {id(j[1]): j[1] for j in jobs}.values():
+            tsb.close()
+    refused = dict(x.split("=", 1) for x in model(drv, ["crash\tbaseline\t1\t1,2\t100\t7"])[0].split("\t"))["target"]
+    if refused != "val:1":
+        raise CheckBroken("model: a refused rename must leave the prior document")
+    for (kind, _, _, _, fl, sc), r in zip(jobs, res):
+        n += 1
+        case = {"kind": kind, "prior": "valid", "flavour": fl, "inject": sc, "then": "link/mount"}
+        killed += 1 if r["killed"] else 0
+        # model: which state, which trace
+        if sc in ("write", "copy_file_range") or sc is None:
+            want_state = "prior" if fl == "bindmount" else "new"
+            want_aw = points[:8] if fl == "bindmount" else points
+            if r["killed"]:
+                mism.append({"relation": "the save never writes or copies onto the state file's own path (only the temp file is written, then renamed)", "case": case, "impl": "killed at " + sc})
+            elif r["state"] != want_state or r["aw"] != want_aw or r["temps"]:
+                mism.append({"relation": "state and hook trace of a save onto a %s target == model (%s)" % (fl, "refused rename, file unchanged" if fl == "bindmount" else "whole protocol, new document"),
+                             "case": case, "impl": [r["state"], r["aw"], r["temps"], r["err"]], "model": [want_state, want_aw]})
+        else:
+            if not r["killed"]:
+                mism.append({"relation": "the save performs a rename system call (where the injected kill takes place)", "case": case, "impl": [r["rc"], r["state"], r["err"]]})
+            elif r["state"] != "prior" or r["aw"] != points[:8]:
+                mism.append({"relation": "a kill at the rename system call == crash 7 (target unchanged)", "case": case, "impl": [r["state"], r["aw"]], "model": ["prior", points[:8]]})
+        # property oracle
+        bad = None
+        if r["state"] not in ("prior", "new"):
+            bad = "the %s file (%s target) is %s after the %s" % (kind, fl, r["state"], "kill at " + sc if r["killed"] else "save")
+        elif r["state"] == "new" and r["aw"] != points:
+            bad = "the %s file (%s target) was changed by a save that did not go through the protocol: hook trace %s" % (kind, fl, r["aw"])
+        elif r["final"] != "ok" or (kind == "baseline" and 2 in r["next_rcs"]):
+            bad = "the next commands cannot use the %s file (%s target): exits %s, file %s" % (kind, fl, r["next_rcs"], r["final"])
+        if bad:
+            fails.append({"kind": "property-oracle", "what": bad, "case": case, "observed": r, "replay_cmd": "python3 tools/vp.py check C13 --replay <this file>"})
+    note["cases"], note["killed_by_injection"] = n, killed
+    return mism, fails, killed, n, note
+
+
 COMBO_CMD = ["check", ".", "--baseline", BASELINE, "--update-baseline", "all"]
 
 
@@ -507,7 +621,7 @@ def replay(ctx, path):
         return 0
     if "then" in c or c.get("kind") == "cache+baseline":
         print("case :", c)
-        f = (recycled_pid(ctx, cli, drv, points) if "then" in c else combo(ctx, cli, drv, points))
+        f = (links_and_syscalls(ctx, cli, drv, points) if c.get("then") == "link/mount" else recycled_pid(ctx, cli, drv, points) if "then" in c else combo(ctx, cli, drv, points))
         print("mismatches:", json.dumps(f[0])[:1500])
         print("oracle    :", json.dumps(f[1])[:3000])
         return 0
